@@ -114,6 +114,15 @@ def prop(case):
         text2, truth2 = render_verilog(nl, lib, case['seed'] // 4 + 1, modname='second_module')
         second = (text2, truth2)
     circuits = {}
+    rejected_first = (case['seed'] // 5) % 3 == 0
+    if rejected_first:
+        # history: an earlier parse in the same process that is rejected half-way (another rendering of the same netlist - same port and instance
+        # names, other wiring details - cut off after one to four fifths): nothing of it may reach the circuits parsed afterwards
+        sib = render_verilog(nl, lib, case['seed'] + 17, modname='earlier_rejected')[0]
+        try:
+            verilog.parse(sib[:len(sib) * (1 + (case['seed'] // 15) % 4) // 5] + '\n', tlib=tlib, branchforks=bool(case['seed'] % 2))
+        except Exception:          # rejected (or, cut at a lucky place, accepted); either way not the subject
+            pass
     for bf in (False, True):
         if second is None:
             c = verilog.parse(text, tlib=tlib, branchforks=bf)
@@ -158,9 +167,15 @@ def prop(case):
     # bench rendering of the original (un-fitted) netlist
     onl = case['nl']
     rb = render_bench(onl, case['bseed'])
-    labels = [lib]
+    labels = [lib] + (['after_a_rejected_parse'] if rejected_first else [])
     if rb is not None:
         btext, bt = rb
+        if rejected_first:
+            sibb = render_bench(onl, case['bseed'] + 1)
+            try:
+                bench.parse(sibb[0][:len(sibb[0]) * 3 // 5] + ' = = (\n')
+            except Exception:
+                pass
         cb = bench.parse(btext)
         sigb = rm.eval2(onl, [col(k) for k in range(npi)], [col(npi + k) for k in range(nst)], mask)
         got_po, got_st = table(cb, bt['pi'], bt['st'], bt['po'], combos)
